@@ -237,6 +237,20 @@ func (fr *Frame) applyContract(fc *FuncContract, site ssa.Instruction, obj *type
 	vc.instN++
 	inst := intLit(int64(vc.instN))
 	pre := st.clone()
+	{
+		top := fr
+		for top.parent != nil {
+			top = top.parent
+		}
+		if top.callStates == nil {
+			top.callStates = map[string]*State{}
+		}
+		nm := fc.Target
+		if i := strings.LastIndex(nm, "."); i >= 0 {
+			nm = nm[i+1:]
+		}
+		top.callStates[nm] = pre
+	}
 	binds := map[string]Binding{}
 	for i, n := range names {
 		binds[n] = Binding{term: args[i], typ: tys[i]}
@@ -253,6 +267,7 @@ func (fr *Frame) applyContract(fc *FuncContract, site ssa.Instruction, obj *type
 	}
 	mk := func(cur *State) *EvalCtx {
 		ctx := &EvalCtx{vc: vc, st: cur, old: pre, inst: inst, fc: fc, pkg: pkg, bound: map[string]TV{}}
+		ctx.atCallSite = true
 		ctx.lookup = func(name string) (Binding, bool) {
 			b, ok := binds[name]
 			return b, ok
@@ -687,12 +702,12 @@ func (fr *Frame) appendOp(st *State, tS types.Type, s *Term, tT types.Type, t *T
 		// copy prefix when growing: expressed as a quantified fact about the fresh array
 		old := st.clone()
 		for i := 0; i < k; i++ {
-			src := app("eaddr", app("s.arr", t), mkAdd(app("s.off", t), intLit(int64(i))))
-			dst := app("eaddr", app("s.arr", res), mkAdd(app("s.off", res), mkAdd(app("s.len", s), intLit(int64(i)))))
+			src := app("selem", t, intLit(int64(i)))
+			dst := app("selem", res, mkAdd(app("s.len", s), intLit(int64(i))))
 			vc.storeVal(st, et, dst, vc.load(old, et, src))
 		}
 		// prefix of the fresh array equals the old content (fresh cells were unconstrained before)
-		fr.assumePrefixCopy(st, old, et, fits, fa, s)
+		fr.assumePrefixCopy(st, old, et, fits, fa, s, res)
 		return res
 	}
 	// general case: havoc element cells and constrain by quantified facts
@@ -716,15 +731,17 @@ func constLen(t *Term) (int, bool) {
 }
 
 // assumePrefixCopy: when append had to grow, the first len(s) cells of the fresh array hold s's elements.
-func (fr *Frame) assumePrefixCopy(st, old *State, et types.Type, fits, fa, s *Term) {
+func (fr *Frame) assumePrefixCopy(st, old *State, et types.Type, fits, fa, s, res *Term) {
 	vc := fr.vc
 	var conj []*Term
-	fr.cellPairs(st, old, et, leaf(fmt.Sprintf("(eaddr %s pi)", fa)), leaf(fmt.Sprintf("(eaddr (s.arr %s) (+ (s.off %s) pi))", s, s)), &conj)
+	fr.cellPairs(st, old, et, leaf(fmt.Sprintf("(selem %s pi)", res)), leaf(fmt.Sprintf("(selem %s pi)", s)), &conj)
 	if len(conj) == 0 {
 		return
 	}
+	// holds in both cases: in place it follows from the frame of the explicit stores, after growing it is
+	// the initialisation of the fresh array
 	body := mkImplies(leaf(fmt.Sprintf("(and (<= 0 pi) (< pi (s.len %s)))", s)), mkAnd(conj...))
-	vc.assume(st.guard, mkImplies(mkNot(fits), leaf(fmt.Sprintf("(forall ((pi Int)) (! %s :pattern ((eaddr %s pi))))", body, fa))))
+	vc.assume(st.guard, leaf(fmt.Sprintf("(forall ((pi Int)) (! %s :pattern ((selem %s pi))))", body, res)))
 }
 
 // cellPairs collects equalities new[dst] == old[src] for all primitive cells of a value of type t.
@@ -747,8 +764,8 @@ func (fr *Frame) assumeAppendGeneral(st, old *State, et types.Type, s, t, res *T
 	vc := fr.vc
 	// copied prefix and appended part
 	var c1, c2 []*Term
-	fr.cellPairs(st, old, et, leaf(fmt.Sprintf("(eaddr (s.arr %s) (+ (s.off %s) pi))", res, res)), leaf(fmt.Sprintf("(eaddr (s.arr %s) (+ (s.off %s) pi))", s, s)), &c1)
-	fr.cellPairs(st, old, et, leaf(fmt.Sprintf("(eaddr (s.arr %s) (+ (s.off %s) (s.len %s) pi))", res, res, s)), leaf(fmt.Sprintf("(eaddr (s.arr %s) (+ (s.off %s) pi))", t, t)), &c2)
+	fr.cellPairs(st, old, et, leaf(fmt.Sprintf("(selem %s pi)", res)), leaf(fmt.Sprintf("(selem %s pi)", s)), &c1)
+	fr.cellPairs(st, old, et, leaf(fmt.Sprintf("(selem %s (+ (s.len %s) pi))", res, s)), leaf(fmt.Sprintf("(selem %s pi)", t)), &c2)
 	vc.assume(st.guard, leaf(fmt.Sprintf("(forall ((pi Int)) (=> (and (<= 0 pi) (< pi (s.len %s))) %s))", s, mkAnd(c1...))))
 	vc.assume(st.guard, leaf(fmt.Sprintf("(forall ((pi Int)) (=> (and (<= 0 pi) (< pi (s.len %s))) %s))", t, mkAnd(c2...))))
 	// frame: cells outside the result's new part are unchanged
@@ -769,7 +786,7 @@ func (fr *Frame) copyOp(st *State, tD types.Type, d, s *Term) *Term {
 		vc.havocKey(st, key, vc.compSort[key])
 	}
 	var c1 []*Term
-	fr.cellPairs(st, old, et, leaf(fmt.Sprintf("(eaddr (s.arr %s) (+ (s.off %s) pi))", d, d)), leaf(fmt.Sprintf("(eaddr (s.arr %s) (+ (s.off %s) pi))", s, s)), &c1)
+	fr.cellPairs(st, old, et, leaf(fmt.Sprintf("(selem %s pi)", d)), leaf(fmt.Sprintf("(selem %s pi)", s)), &c1)
 	vc.assume(st.guard, leaf(fmt.Sprintf("(forall ((pi Int)) (=> (and (<= 0 pi) (< pi %s)) %s))", n, mkAnd(c1...))))
 	for key := range cells {
 		h0, h1 := vc.comp(old, key, vc.compSort[key]), vc.comp(st, key, vc.compSort[key])
